@@ -998,6 +998,9 @@ def _execute(p, s, res):
                         world.log.add("ts_call_skipped_not_created", st["trig"])
                     elif op == "ts_call":
                         rfd = ts_rfds[st["trig"]]
+                        if rfd is None:      # (this trigger shares somebody else's pipe: look at all of them)
+                            known = [fd for fd in ts_rfds if fd in kernel.fds]
+                            rfd = known[0] if known else None
                         pipe = kernel.fds[rfd].pipe if rfd in kernel.fds else None
                         if pipe is None or (pipe.cap >= 65536 and pipe.cap - len(pipe.buf) >= 1024):
                             call_ts(st["trig"], "main")
